@@ -42,7 +42,7 @@ OpenHandlesOf(S, n) == {h \in Handles : S.hs[h].st = "open" /\ S.hs[h].n = n}
 (* ---- result classes ---------------------------------------------------- *)
 ExpectOpen(S, n, u, mode) ==
     IF Registered(S, n)
-    THEN IF mode = "CreateNew" THEN "exists"
+    THEN IF mode = "CreateNew" THEN (IF u # S.reg[n].url THEN "refused" ELSE "exists")   \* both reasons apply: either refusal
          ELSE IF u # S.reg[n].url THEN "otherurl" ELSE "ok"
     ELSE IF u = "mem" THEN (IF mode = "ReOpenExisting" THEN "notexist" ELSE "ok")
          ELSE IF S.store[n][u].exists THEN (IF mode = "CreateNew" THEN "exists" ELSE "ok")
